@@ -294,41 +294,7 @@ fn check_random(t: &mut Tape, ctx: &Ctx) -> Outcome {
 /// VAL over numeric-looking texts: every documented spelling (decimal, exponent with E e D d,
 /// type suffix, & octal and &H hex with all sixteen digits in both cases), with blanks and junk.
 fn check_val(t: &mut Tape, ctx: &Ctx) -> Outcome {
-    let mut x = String::new();
-    x.push_str(*t.pick(&["", "", " ", "  "]));
-    match t.below(6) {
-        0 | 1 => {
-            x.push_str(*t.pick(&["&H", "&h", "&"]));
-            let n = 1 + t.below(5);
-            for _ in 0..n {
-                x.push(*t.pick(&['0', '1', '7', '8', '9', 'A', 'B', 'C', 'D', 'E', 'F', 'a', 'b', 'c', 'd', 'e', 'f', 'G']));
-            }
-        }
-        _ => {
-            x.push_str(*t.pick(&["", "", "-", "+"]));
-            let n = t.below(9);
-            for _ in 0..n {
-                x.push(*t.pick(&['0', '1', '2', '5', '9']));
-            }
-            if t.chance(1, 2) {
-                x.push('.');
-                let n = t.below(5);
-                for _ in 0..n {
-                    x.push(*t.pick(&['0', '1', '2', '5', '9']));
-                }
-            }
-            if t.chance(1, 2) {
-                x.push(*t.pick(&['E', 'e', 'D', 'd']));
-                x.push_str(*t.pick(&["", "", "-", "+"]));
-                let n = t.below(3);
-                for _ in 0..n {
-                    x.push(*t.pick(&['0', '1', '2', '3']));
-                }
-            }
-            x.push_str(*t.pick(&["", "", "", "!", "#", "%"]));
-        }
-    }
-    x.push_str(*t.pick(&["", "", "", " ", "x", "é", ",5", " 1", "E", "D2", "&H1"]));
+    let x = crate::textgen::numeric_text(t);
     let stmts = vec![
         Stmt::Let { lv: Lval::Var(Name::new("S$")), e: E::Str(x.clone()), kw: false },
         Stmt::Let { lv: Lval::Var(Name::new("P$")), e: E::Str(String::new()), kw: false },
